@@ -65,7 +65,9 @@ def model_check(ctx):
             d = [int(x) for x in m.group(1).replace("\n", " ").split(",") if x.strip()]
             broken = "broken = TRUE" in blk
             div = int(re.search(r"/\\ div = (\d+)", blk).group(1))
-            docs.append((d, broken, div, run[1]))
+            sm = re.search(r"/\\ succ = (<<.*?>>)\n/\\ ", blk + "\n/\\ ", re.S)
+            succ = json.loads(sm.group(1).replace("<<", "[").replace(">>", "]")) if sm else []
+            docs.append((d, broken, div, run[1], succ))
             instep += div == 0
             if broken:
                 nbroken += 1
@@ -293,24 +295,50 @@ def run(ctx, only_case=None):
         if t not in seen:
             seen.add(t)
             dl.append(list(d))
-    for d, broken, div, use in docs:
+    for d, broken, div, use, succ in docs:
         add(d)
     nstate_docs = len(dl)
-    for d, broken, div, use in docs:
-        if not broken and div == 0:
-            for f in use:
-                add(d + [f])
     info = context_level(ctx, "ctx", dl, frags)
-    hole_docs = [d for d, _, _, _ in docs]
+    hole_docs = [d for d, _, _, _, _ in docs]
     drifted = sorted((pre for pre, x in info.items() if x["drift"]), key=len)
+    # one test per transition out of a state of the synchronised region: the real context after the
+    # transition against the context predicted by AELexer (exported by MC_AEProduct as `succ`)
+    tcases, tpred = [], {}
+    for d, broken, div, use, succ in docs:
+        if broken or div != 0 or not succ:
+            continue
+        for f in use:
+            t = tuple(d) + (f,)
+            if t not in seen and t not in tpred and succ[f - 1]:
+                tpred[t] = succ[f - 1]
+                tcases.append({"id": len(tcases) + 1, "frags": [frags[x] for x in t]})
+    if tcases:
+        tfile, tobs = ctx.work / "trans_cases.ndjson", ctx.work / "trans_obs.ndjson"
+        rig.write_ndjson(tfile, tcases)
+        ctx.drive("c06", tfile, tobs, args=["-mode", "ctx"], timeout=1200)
+        treal = {o["id"]: o for o in rig.read_ndjson(tobs)}
+        keys = list(tpred)
+        for i, t in enumerate(keys):
+            o = treal[i + 1]
+            if o["ctx"] in (-1, -3):
+                continue
+            if [CN.get(o["ctx"], "none"), o["url"]] != tpred[t]:
+                drifted.append(t)
+                info.setdefault(t, {"ctx": o["ctx"], "mctx": tpred[t][0]})
+        ctx.cov["transitions_replayed"] = len(tcases)
+    drifted.sort(key=len)
     if drifted:
         # the real lexer is in another state than the model after these documents: explore what follows them
         ex = drifted[0]
-        ctx.cov["model_drift"] = (f"{len(drifted)} of {len(info)} boundaries: AELexer predicts another context than the real lexer, e.g. "
+        ctx.cov["model_drift"] = (f"{len(drifted)} of {len(info) + len(tcases)} boundaries: AELexer predicts another context than the real lexer, e.g. "
                                   f"{text([frags[f] for f in ex])!r}: real {CN.get(info[ex]['ctx'])}, model {info[ex]['mctx']} (diagnostic; continuations of the drifted documents are explored)")
+        for t in drifted:
+            if "slot" not in info[t]:
+                del info[t]
         cont = ctx.pick(QUICK_FRAGS, DEEP_FRAGS)
         more = []
         for pre in drifted[:ctx.pick(12, 40)]:
+            more.append(list(pre))
             for f in cont:
                 more.append(list(pre) + [f])
                 for g in cont:
